@@ -983,6 +983,20 @@ impl ContinuityStore {
             (head_seq, last_message)
         };
 
+        if let Some(artifact_id) = summary_artifact_id.as_deref() {
+            let blob = self
+                .workspace_root
+                .join(".rip")
+                .join("artifacts")
+                .join("blobs")
+                .join(artifact_id);
+            if !blob.is_file() {
+                return Err(format!(
+                    "handoff summary_artifact_id not found: {artifact_id}"
+                ));
+            }
+        }
+
         let workspace = workspace_key(&self.workspace_root);
         let thread_id = self.create_continuity(workspace, None, title, false)?;
 
